@@ -228,6 +228,11 @@ def interp(e, env):
     if isinstance(e, sympy.im):
         interp(e.args[0], env)
         return mpmath.mpf(0)
+    if isinstance(e, sympy.DiracDelta):
+        x = _val(interp(e.args[0], env))
+        if x == 0:
+            raise ZeroDivisionError("DiracDelta at 0")
+        return mpmath.mpf(0)
     if isinstance(e, sympy.sign):
         x = _val(interp(e.args[0], env))
         if x == 0:
